@@ -223,6 +223,12 @@ def _write_catalog(tree):
     w = [s for s in body if isinstance(s, ast.FunctionDef) and s.name == 'writer']
     _need(len(w) == 1, "write_catalog: inner writer")
     wb = strip_doc(w[0].body)
+    # optional first statement: promote numpy.float32 attributes in place (no effect on the model: floats are abstract)
+    promotes = False
+    if wb and isinstance(wb[0], ast.For) and src(wb[0].iter) == 'catalog' and src(wb[0].target) == 'c' \
+            and [src(s) for s in wb[0].body] == ['c._sanitise()'] and not wb[0].orelse:
+        promotes = True
+        wb = wb[1:]
     _need(src(wb[0]) == 'tab_dict = {}' and src(wb[1]) == 'name_list = []' and isinstance(wb[2], ast.For)
           and src(wb[2].iter) == 'catalog[0].names' and src(wb[2].target) == 'name', "writer: column loop")
     lb = wb[2].body
@@ -309,7 +315,7 @@ def _write_catalog(tree):
         _need(all(src(s).startswith('log.') for s in st.body[2:]), "write_catalog: extra statements in a block")
         blocks.append((slots.index(which), suffix))
     _need(len(blocks) == 3 and sorted(b[0] for b in blocks) == [0, 1, 2], "write_catalog: one block per source kind")
-    return sep, rules, inner, blocks, layout, minlen
+    return sep, rules, inner, blocks, layout, minlen, promotes
 
 
 TYPES = {'bool': 0, 'int': 1, 'float': 2, 'str': 3}
@@ -494,7 +500,7 @@ def gen_catalog(repo):
     names, parent, tests, ret_order, defaults = _models(repo)
     tree = parse_file(_p(repo, 'catalogs.py'))
     ascii_fmts, lower, disp = _save_catalog(tree)
-    sep, rules, inner, blocks, layout, minlen = _write_catalog(tree)
+    sep, rules, inner, blocks, layout, minlen, promotes = _write_catalog(tree)
     tchain, fallback_w, errp, uuid, str_first, width_all, min_w = _fits(tree)
     fmts, lower2, readers, skips_masked = _loader(tree)
     marker, tnames, on_rows = _db(tree)
@@ -537,6 +543,8 @@ Definition writer_dispatch : list (list string * Z) := {_pairs(inner, lambda t: 
 Definition write_blocks : list (Z * string) := {_pairs(blocks, lambda t: f'({t[0]}, {_s(t[1])})')}.
 Definition name_layout : list Z := {_pairs(layout, str)}.
 Definition write_min_len : Z := {minlen}.
+(* informative only: the writer promotes numpy.float32 attributes to float64 (SimpleSource._sanitise) before building the table *)
+Definition writer_promotes_float32 : bool := {b(promotes)}.
 
 (* ---- catalogs.writeFITSTable: columns starting with fits_err_prefix are 'E'; a column named fits_uuid_name
    (or, when fits_str_first_rule, whose first entry is a string) is 'nA' with n = longest entry
